@@ -4,7 +4,7 @@
 //! the private `fn chronobox_time` and the row loop of `main()`, both cut
 //! verbatim out of the current source (see lib/gen_extract.py).
 
-use crate::extracted_cbts::{chronobox_time, rows};
+use crate::extracted_cbts::{chronobox_ticks, chronobox_time, rows};
 use crate::sym;
 use alpha_g_detector::chronobox::{FifoEntry, TimestampCounter, WrapAroundMarker};
 use uom::si::time::second;
@@ -105,12 +105,39 @@ pub fn soundness() {
     witness!(r.is_some(), "some-time");
     witness!(r.is_none() && hp && hn, "no-time-despite-two-markers");
     check!(r.is_some() == consistent, "C20:soundness:time-iff-enclosed-and-consistent");
-    if let Some(x) = r {
-        let ticks = ts24 as u64 + ((pc as u64 + 1) / 2) * WRAP;
+    // value: the integer twin of the kernel (same text minus the final int->float
+    // division by the 10 MHz constant) returns exactly the documented tick count
+    let k = chronobox_ticks(tsc, prev, next);
+    check!(k.is_some() == consistent, "C20:soundness:ticks-iff");
+    if let Some(k) = k {
         check!(
-            x.get::<second>().to_bits() == ((ticks as f64) / FREQ).to_bits(),
-            "C20:soundness:formula"
+            k == ts24 as u64 + ((pc as u64 + 1) / 2) * WRAP,
+            "C20:soundness:ticks-formula"
         );
+    }
+}
+
+/// Value clause of `soundness` with both markers present (no `Option`
+/// multiplexer between the harness values and the kernel's reads, so that both
+/// sides of the float comparison are the same circuit).
+pub fn soundness_value() {
+    let ts = sym::u32();
+    let ch = sym::u8();
+    sym::assume(ch < 59);
+    let tsc = TimestampCounter::verif_new(ch, ts, sym::bool()).unwrap();
+    let (pc, nc) = (sym::u32(), sym::u32());
+    let (pt, nt) = (sym::bool(), sym::bool());
+    let prev = WrapAroundMarker::verif_new(pt, pc);
+    let next = WrapAroundMarker::verif_new(nt, nc);
+    let r = chronobox_time(tsc, Some(prev), Some(next));
+    if let Some(x) = r {
+        let epoch: u32 = (prev.wrap_around_counter() + 1) / 2;
+        let time: u64 = u64::from(tsc.timestamp()) + u64::from(epoch) * (1u64 << 24);
+        let ticks = (ts & 0xFF_FFFE) as u64 + (((pc & 0x7F_FFFF) as u64 + 1) / 2) * WRAP;
+        check!(time == ticks, "C20:soundness:formula-integer");
+        // neither side is NaN and only tick 0 gives a zero (+0.0 on both sides)
+        let want = (time as f64) / FREQ;
+        check!(x.value <= want && x.value >= want, "C20:soundness:formula");
     }
 }
 
